@@ -746,7 +746,7 @@ func c13xSuite(r *Result, rng *rand.Rand, tier string) {
 
 // c13xTie returns (lean op, real parent-table event list) for a failure-free, hook-running case, or nil.
 func c13xTie(c c13xCase, obs c13xObs) ([]interface{}, [][]interface{}) {
-	if c.Skip != "" || c.FailAt != "" || c.FailStmt != 0 || obs.Err != "" {
+	if c.Skip == "session" || c.FailAt != "" || c.FailStmt != 0 || obs.Err != "" {
 		return nil, nil
 	}
 	fn, n, batch := "", c.N, 0
@@ -775,6 +775,11 @@ func c13xTie(c c13xCase, obs c13xObs) ([]interface{}, [][]interface{}) {
 		fn = "DB.Updates"
 		if c.Via == "update" {
 			fn = "DB.Update"
+		}
+		if c.Skip == "updatecolumn" {
+			fn = "DB.UpdateColumn"
+		} else if c.Skip == "updatecolumns" {
+			fn = "DB.UpdateColumns"
 		}
 	case "delete":
 		fn = "DB.Delete"
